@@ -331,7 +331,7 @@ def _finish_rx(rnd, case, rx, p_ts):
 def _name(rnd, taken, suffix):
     while True:
         n = rnd.choice('ABCDEFGHIKLMNOPRSTXYZ') + ''.join(
-            rnd.choice('ABCHNOXabcx0123456789_*') for _ in range(rnd.randint(0, 5))) + suffix
+            rnd.choice('ABCEHNOXabcex0123456789_*') for _ in range(rnd.randint(0, 5))) + suffix
         if n not in taken and n.upper() not in KEYWORDS and n not in KEYWORDS:
             taken.add(n)
             return n
